@@ -43,6 +43,7 @@ type Engine struct {
 	typeNames  map[string]types.Type
 	skipped    []string
 	boundedEv  []string
+	mutableGlobals map[*ssa.Global]string
 }
 
 var posRe = regexp.MustCompile(` @ \d+:\d+`)
@@ -246,6 +247,22 @@ func (e *Engine) load(patterns []string, dir string) error {
 			}
 		}
 	}
+	// package-level variables that some non-init function in the library stores to
+	e.mutableGlobals = map[*ssa.Global]string{}
+	for fn := range ssautil.AllFunctions(prog) {
+		if !e.inScope(fn) || fn.Name() == "init" || strings.HasPrefix(fn.Name(), "init#") {
+			continue
+		}
+		for _, b := range fn.Blocks {
+			for _, in := range b.Instrs {
+				if st, ok := in.(*ssa.Store); ok {
+					if g := rootGlobal(st.Addr); g != nil {
+						e.mutableGlobals[g] = fn.String()
+					}
+				}
+			}
+		}
+	}
 	// index functions by contract key
 	e.funcs = map[string][]*ssa.Function{}
 	for fn := range ssautil.AllFunctions(prog) {
@@ -383,6 +400,11 @@ func (e *Engine) verifyFunction(fn *ssa.Function, fc *FuncContract) (res *FuncRe
 				fr.params[fc.ParamNames[i-1]] = fr.params[n]
 			}
 		}
+	}
+	if _, ok := e.db.GGlobal["relArr"]; ok {
+		// nothing that is not allocated yet has been handed to the pool
+		fv.declare("gg_relArr!0", "(Array Int Bool)")
+		st.assume("(forall ((r Int)) (! (=> (> r alloc!entry) (not (select gg_relArr!0 r))) :pattern ((select gg_relArr!0 r))))")
 	}
 	env := fv.envFor(st)
 	env.old = st
@@ -688,6 +710,23 @@ func (e *Engine) ifaceTypeByKey(key string, fn *ssa.Function) types.Type {
 		}
 		if t, ok := p.Members[tname].(*ssa.Type); ok {
 			return t.Type()
+		}
+	}
+	return nil
+}
+
+// rootGlobal: the package-level variable an address is derived from (through field/index addressing), if any.
+func rootGlobal(v ssa.Value) *ssa.Global {
+	for i := 0; i < 10; i++ {
+		switch x := v.(type) {
+		case *ssa.Global:
+			return x
+		case *ssa.FieldAddr:
+			v = x.X
+		case *ssa.IndexAddr:
+			v = x.X
+		default:
+			return nil
 		}
 	}
 	return nil
